@@ -75,9 +75,11 @@ def call(mm, op):
     if k == 'ok':
       return ('ok', canon(mm.design_within_constraints(set(op[1]), set(op[2]))))
     if k == 'exhaustive':
-      return ('ok', canon(mm.exhaustive_search()))
+      with core.time_limit(60):
+        return ('ok', canon(mm.exhaustive_search()))
     if k == 'greedy':
-      return ('ok', canon(mm.greedy_search()))
+      with core.time_limit(60):
+        return ('ok', canon(mm.greedy_search()))
     if k == 'results':
       return ('ok', canon(mm.search_results()))
     raise KeyError(k)
@@ -122,6 +124,9 @@ def gen_ops(rng, n_adm):
       rng.shuffle(idx)
       a = rng.randint(0, min(2, len(idx) - 1))
       ops.append(('ok', sorted(idx[:a]), sorted(idx[a:a + rng.randint(0, 2)])))
+    elif k == 'count' and rng.random() < 0.5:
+      ops.append(('sibling', rng.choice(['count', 'assignments', 'exhaustive', 'sizeRange'])))
+      ops.append((k,))
     elif k.startswith('geos_') and rng.random() < 0.4:
       ops.append((k, 'consume'))      # the caller empties the set it was handed
     else:
@@ -154,6 +159,7 @@ def history(job):
     last_search = None
     results_undefined = False
     cur_resolved = dict(resolved)
+    sib = [None]
     for i, op in enumerate(ops):
       if op[0] == 'setparam':                 # the user reconfigures the object between calls
         setattr(mm.parameters, op[1], tuple(op[2]) if isinstance(op[2], list) else op[2])
@@ -162,6 +168,20 @@ def history(job):
         out['steps'].append({'op': op, 'kind': 'setparam'})
         # results stored before a reconfiguration hold geo *indices* of the old configuration; what retrieving them
         # afterwards should give is not something the property speaks about: not compared until the next search
+        results_undefined = last_search is not None
+        continue
+      if op[0] == 'sibling':
+        # a second matched-markets object on the SAME data object (another n_geos_max) is used in between; what it does
+        # is not judged, but this object's later answers must not change (stored results are not compared until the
+        # next search, as after a reconfiguration: they are index sets read through the shared data object)
+        try:
+          if sib[0] is None:
+            from matched_markets.methodology import tbrmatchedmarkets
+            sib[0] = tbrmatchedmarkets.TBRMatchedMarkets(data, se.build_params(inst, dict({k: v for k, v in cur_resolved.items() if v is not None}, n_geos_max=2)))
+          call(sib[0], (op[1],))
+        except Exception:
+          pass
+        out['steps'].append({'op': op, 'kind': 'setparam'})
         results_undefined = last_search is not None
         continue
       got = call(mm, op)
@@ -214,6 +234,8 @@ def model_answer(line, idx_ids, order):
 
 def wire_op(op):
   k = op[0]
+  if k == 'sibling':
+    return None
   if k in ('geos_over_budget', 'geos_too_large', 'geos_must_include'):
     return None
   if k == 'geos_within_constraints':
